@@ -1,6 +1,6 @@
 chk('C12',
     'Exhaustive enumeration of all 326 ordered builder-call programs x byte order x sink x chunk and the full (pixel count, chunk) grid; every produced file is decoded byte-exactly by an independent strict decoder (header, BAT, tiling to EOF, typed blocks) and compared across call orders. Bounded: pixel counts / chunk sizes / string lengths from the stated alphabets.',
-    'Trusted: ref/sqwdec.py (format as documented in the repository; no genuine Horace file offline); ASCII titles; frozen clock.',
+    'Trusted: ref/sqwdec.py (format as documented in the repository; no genuine Horace file offline); frozen clock.',
     'explicit enumeration of all builder-call programs and configuration grid on the real code; independent decoder as reference model',
     'DESIGN.md section 6 C12')
 chk('C13',
